@@ -17,6 +17,9 @@ class Calc(object):
 
     literals = ['+', '-', '*', '/', '(', ')', '|']
 
+    max_bits = 128
+    '''Wider literals and intermediate results are refused (as in the prophy parser).'''
+
     t_NAME = r'[a-zA-Z_][a-zA-Z0-9_]*'
     t_LSHIFT = r'<<'
     t_RSHIFT = r'>>'
@@ -39,6 +42,8 @@ class Calc(object):
     @staticmethod
     def t_CONST10(t):
         r"""\d+"""
+        if len(t.value) > 60:
+            raise ParseError('constant out of range')
         t.value = int(t.value)
         return t
 
@@ -67,20 +72,31 @@ class Calc(object):
                       | expression '|' expression
                       | expression LSHIFT expression
                       | expression RSHIFT expression"""
-        if p[2] == '+':
-            p[0] = p[1] + p[3]
-        elif p[2] == '-':
-            p[0] = p[1] - p[3]
-        elif p[2] == '*':
-            p[0] = p[1] * p[3]
-        elif p[2] == '/':
-            p[0] = p[1] // p[3]
-        elif p[2] == '<<':
-            p[0] = p[1] << p[3]
-        elif p[2] == '>>':
-            p[0] = p[1] >> p[3]
-        elif p[2] == '|':
-            p[0] = p[1] | p[3]
+        try:
+            if p[2] == '+':
+                p[0] = p[1] + p[3]
+            elif p[2] == '-':
+                p[0] = p[1] - p[3]
+            elif p[2] == '*':
+                p[0] = p[1] * p[3]
+            elif p[2] == '/':
+                p[0] = p[1] // p[3]
+            elif p[2] == '<<':
+                if p[3] > Calc.max_bits:
+                    raise OverflowError
+                p[0] = p[1] << p[3]
+            elif p[2] == '>>':
+                p[0] = p[1] >> p[3]
+            elif p[2] == '|':
+                p[0] = p[1] | p[3]
+            if p[0].bit_length() > Calc.max_bits:
+                raise OverflowError
+        except ZeroDivisionError:
+            raise ParseError('division by zero')
+        except ValueError:
+            raise ParseError('negative shift count')
+        except OverflowError:
+            raise ParseError('constant expression out of range')
 
     @staticmethod
     def p_expression_uminus(p):
@@ -96,6 +112,8 @@ class Calc(object):
     def p_expression_number(p):
         """expression : CONST10
                       | CONST16"""
+        if p[1].bit_length() > Calc.max_bits:
+            raise ParseError('constant out of range')
         p[0] = p[1]
 
     def p_expression_name(self, p):
